@@ -38,11 +38,20 @@ var ChannelEvents = fsm.Events{
 			return nil
 		}),
 
-	fsm.Event(datatransfer.Restart).FromAny().ToJustRecord().Action(func(chst *internal.ChannelState) error {
-		chst.Message = ""
-		chst.AddLog("")
-		return nil
-	}),
+	// A restart is only recorded when the responder accepted it, and the responder
+	// only accepts a restart for a channel it has accepted. On an initiator that
+	// never saw the responder's first response (it was cut off or replaced before the
+	// response arrived) the restart is therefore the acceptance as well - otherwise
+	// the channel would still count as one the responder never answered and would
+	// complete on the local finish alone, without the responder's Complete.
+	fsm.Event(datatransfer.Restart).FromAny().ToJustRecord().
+		From(datatransfer.Requested).To(datatransfer.Queued).
+		From(datatransfer.AwaitingAcceptance).To(datatransfer.Ongoing).
+		Action(func(chst *internal.ChannelState) error {
+			chst.Message = ""
+			chst.AddLog("")
+			return nil
+		}),
 
 	fsm.Event(datatransfer.Cancel).FromAny().To(datatransfer.Cancelling).Action(func(chst *internal.ChannelState) error {
 		chst.AddLog("")
